@@ -212,8 +212,9 @@ class SimDisk:
         except TypeError:
             return False
 
-    def arm(self, at, err):
-        self.plan = {'at': at, 'err': err}
+    def arm(self, at, err, sticky=False):
+        """Fail the at-th file operation from now on; sticky: and every operation after it (the disk stays full)."""
+        self.plan = {'at': at, 'err': err, 'sticky': sticky}
         self.opcount = 0
 
     def disarm(self):
@@ -225,7 +226,7 @@ class SimDisk:
             return None
         k = self.opcount
         self.opcount += 1
-        if k == self.plan['at']:
+        if k == self.plan['at'] or (self.plan.get('sticky') and k > self.plan['at']):
             code, msg = self.ERRS[self.plan['err'] % len(self.ERRS)]
             self.w.fault('io_error', op=op, path=name, errno=code)
             self.w.probe('io_error_at_' + op)
